@@ -29,6 +29,7 @@ fn main() {
     let mut out = j::Out::create(&outp);
     match driver {
         "codec" => codec::run(&mut out, seed, thorough),
+        "reader:replay" => drv_reader::replay(&mut out, &arg(&args, "--in").expect("--in FILE")),
         d if d.starts_with("reader:") => drv_reader::run(&mut out, &d[7..], seed, thorough),
         x => { eprintln!("unknown driver {x}"); std::process::exit(2); }
     }
